@@ -36,7 +36,8 @@ func (c *Encoder) Encodes(statements []ast.Statement) ([]byte, error) {
 		buf.Write(frame.Encode())
 	}
 	buf.Write(fin())
-	return buf.Bytes(), nil
+	// buf goes back to the pool: the caller gets its own copy
+	return bytes.Clone(buf.Bytes()), nil
 }
 
 func (c *Encoder) Encode(stmt ast.Statement) ([]byte, error) {
